@@ -277,7 +277,16 @@ func c25Layout(c *core.Ctx, work string, idx int) {
 	}
 	var clock atomic.Int64
 	for _, numGo := range []int{1, 2, 8} {
-		sr := runStream(db, &clock, numGo, nil, 0, false)
+		var sr *streamRun
+		if numGo == 1 {
+			// the first stream finds the newest writes in the memtable; it is flushed at the very
+			// moment the first producer pins the memtables for its iterator
+			if w.FlushAtPin(func() { sr = runStream(db, &clock, numGo, nil, 0, false) }) > 0 {
+				c.Count("stream.flushes_while_a_producer_opened_its_iterator", 1)
+			}
+		} else {
+			sr = runStream(db, &clock, numGo, nil, 0, false)
+		}
 		c.Eval(1)
 		info := map[string]any{"options": name, "numGo": numGo, "tables": w.Witness()["tables"], "kvs": len(sr.KVs)}
 		if sr.Err != "" {
